@@ -84,6 +84,7 @@ def showEv : Ev → String
 
 structure Parsed where
   otel : Bool := false
+  unsampled : Bool := false      -- the OpenTelemetry adapter over a tracer that samples nothing: only the counters are visible
   cfg : Config := {}
   faults : List Bool := []
   bodies : Array (List Action) := #[]
@@ -103,8 +104,9 @@ def parseCase (lines : Array String) : Parsed := Id.run do
     match words l with
     | "opts" :: ws =>
       -- `otel` installs the real OpenTelemetry implementation: callbacks happen, but are observed as spans/counters only
-      let ws' := ws.map (fun w => if w == "otel" then "obs" else w)
-      p := { p with cfg := applyOptions p.cfg (ws'.filterMap parseOpt), otel := p.otel || ws.contains "otel" }
+      let ws' := ws.map (fun w => if w == "otel" || w == "otelns" then "obs" else w)
+      p := { p with cfg := applyOptions p.cfg (ws'.filterMap parseOpt), otel := p.otel || ws.contains "otel" || ws.contains "otelns",
+                    unsampled := p.unsampled || ws.contains "otelns" }
     | ["maxdepth", n] => p := { p with cfg := { p.cfg with maxDepth := nat! n } }
     | "faults" :: ws => p := { p with faults := ws.map (fun w => w != "0") }
     | "body" :: idx :: "=" :: ws =>
@@ -143,6 +145,10 @@ def otelLine (tr : List Ev) : String :=
   let es := if uniq.isEmpty then "-" else ",".intercalate (uniq.map fun e => s!"{e}:{edges.count e}")
   s!"otel started={sm.started} ended={sm.ended} notonce=0 publish={sm.publishes} handler={sm.handlerRuns} herr={sm.handlerErrors} herrspans={sm.handlerErrors} persist={sm.persistAttempts} perr={sm.persistErrors} edges={es}"
 
+def otelCountersLine (tr : List Ev) : String :=
+  let sm := otelSummary tr
+  s!"otelns publish={sm.publishes} handler={sm.handlerRuns} herr={sm.handlerErrors} persist={sm.persistAttempts} perr={sm.persistErrors}"
+
 def runCase (lines : Array String) : Array String :=
   let p := parseCase lines
   let cfg := { p.cfg with bodies := p.bodies.toList }
@@ -160,7 +166,7 @@ def runCase (lines : Array String) : Array String :=
   let out := (shown.map showEv).toArray
   let out := if s.c.outOfFuel then out.push "!OUT-OF-FUEL" else out
   let out := if s.c.pending.isEmpty then out else out.push s!"!pending {s.c.pending.length}"
-  let out := if p.otel then out.push (otelLine s.c.trace) else out
+  let out := if p.otel then out.push (if p.unsampled then otelCountersLine s.c.trace else otelLine s.c.trace) else out
   p.bad.map (fun l => "bad-op " ++ l) ++ out
 
 end Driver.BusDrv
